@@ -177,7 +177,12 @@ def task_tendency(ctx, cfg, variant, levels, lname, kind):
 def make_tasks(tier, seed):
   base_cfgs = [dict(M=3, L=4, nlon=8, nlat=5), dict(M=4, L=5, nlon=13, nlat=7, radius=2.5, offset=0.2),
                dict(M=3, L=4, nlon=10, nlat=9, spacing='equiangular'), dict(M=2, L=4, nlon=7, nlat=6, spacing='equiangular_with_poles'),
-               dict(M=5, L=6, nlon=12, nlat=6), dict(M=1, L=2, nlon=4, nlat=3)]
+               dict(M=5, L=6, nlon=12, nlat=6), dict(M=1, L=2, nlon=4, nlat=3),
+               # marginal longitude resolution: highest zonal wavenumber exactly at (nlon = 2(M-1)) or one node above (nlon = 2M-1) the Nyquist limit,
+               # and below it (aliased, nlon = 2M-3): the two implementations must still agree although the quadrature no longer resolves m = M-1
+               dict(M=5, L=6, nlon=8, nlat=8), dict(M=4, L=5, nlon=7, nlat=6, spacing='equiangular'), dict(M=4, L=4, nlon=5, nlat=5),
+               # tight latitude resolution (truncation at the limit of the quadrature) for the three spacings
+               dict(M=3, L=5, nlon=8, nlat=5), dict(M=4, L=5, nlon=10, nlat=9, spacing='equiangular_with_poles'), dict(M=3, L=4, nlon=8, nlat=7, spacing='equiangular')]
   if tier != 'quick':
     base_cfgs += [dict(M=8, L=9, nlon=25, nlat=13), dict(M=12, L=13, nlon=37, nlat=19, spacing='equiangular'), grids.construct(21, 16)]
   tasks = []
